@@ -45,6 +45,8 @@ package reference
 //@   ensures [C08,C11] implies(typ != cty.NilType && ref.Type == cty.NilType, !result)
 
 // ---- C08/C11: a target satisfies a reference constraint only if BOTH its scope and its type fit.
+//@ contract (reference.Target).MatchesScopeId (ref, scopeId) (result)
+//@   ensures [C08,C11,name:an-expected-scope-is-met-only-by-that-scope] result == (scopeId == "" || ref.ScopeId == scopeId)
 //@ contract (reference.Target).MatchesConstraint (target, ref) (ok)
 //@   ensures [C08,C11] ok == (target.MatchesScopeId(ref.OfScopeId) && target.IsConvertibleToType(ref.OfType))
 
